@@ -109,12 +109,16 @@ func (node *Map) Typecheck(ctx context.Context, env physical.Environment, logica
 		} else {
 			name = fmt.Sprintf("col_%d", i)
 		}
-		existingCount := existingFields[name]
-		if existingCount > 0 {
-			// We don't want duplicate field names.
+		for {
+			// We don't want duplicate field names: the requested name's counter advances and the
+			// suffixed candidate is checked as well (a third column of one name must not repeat the second's).
+			existingCount := existingFields[name]
+			existingFields[name] = existingCount + 1
+			if existingCount == 0 {
+				break
+			}
 			name = fmt.Sprintf("%s_%d", name, existingCount)
 		}
-		existingFields[name] = existingCount + 1
 
 		unique := logicalEnv.GetUnique(name)
 		outMapping[name] = unique
